@@ -199,6 +199,91 @@ theorem split_invariance_n {E : Type} (eng : Engine E) (hfree : eng.CallLocalFre
     · rw [s3, List.map_append, List.map_append, i2]
     · rw [s4, i3]
 
+/-! ## any entry point for any piece -/
+
+theorem run_congr {E : Type} (eng : Engine E) (w w' : W E) (h : w.modInput = w'.modInput) (c : Option Bytes) :
+    w.run eng (.file c) = w'.run eng (.file c) := by
+  have : w.resetInput = w'.resetInput := h
+  simp [W.run, this]
+
+theorem run_snd {E : Type} (eng : Engine E) (w : W E) (src : Source) : (w.run eng src).2 = (w.run eng src).1.rc := by
+  cases src <;> rfl
+
+theorem run_file_buffer {E : Type} (eng : Engine E) (w : W E) (c : Option Bytes) :
+    (w.run eng (.file c)).1.stringInput = [] := by
+  cases h : w.dbLoaded <;> cases c <;> simp [W.run, W.finish, W.updateErrors, W.resetInput, W.core, W.doRun, h]
+
+/-- whatever the entry point, a piece leaves the object as RunFile of its text would (apart from the buffer and its flag),
+    returns the same value, and leaves the buffer ready for the next delivery -/
+theorem deliver_eq_file {E : Type} (eng : Engine E) (w : W E) (d : Delivery) (hw : d.wellFormed) (hb : w.bufferFresh) :
+    (w.deliver eng d).1.modInput = (w.run eng (.file (some d.text))).1.modInput ∧
+    (w.deliver eng d).2 = (w.run eng (.file (some d.text))).2 ∧ (w.deliver eng d).1.bufferFresh := by
+  cases d with
+  | str s =>
+    have h := (entrypoints_agree eng w s (cstr s) rfl).1
+    refine ⟨by simp only [W.deliver, Delivery.text, h], by simp only [W.deliver, Delivery.text, h], ?_⟩
+    simp only [W.deliver, h]
+    exact Or.inr (run_file_buffer eng w _)
+  | file c =>
+    refine ⟨by simp only [W.deliver, Delivery.text], by simp only [W.deliver, Delivery.text], ?_⟩
+    simp only [W.deliver]
+    exact Or.inr (run_file_buffer eng w _)
+  | acc ls =>
+    cases ls with
+    | nil => exact absurd rfl hw
+    | cons l ls =>
+      have h := accumulated_run_is_string_run eng w l ls hb
+      refine ⟨h.1, h.2, Or.inl ?_⟩
+      simp [W.deliver, W.run, W.finish, W.updateErrors]
+
+theorem deliverAll_eq_runPieces {E : Type} (eng : Engine E) (ds : List Delivery) (hwf : ∀ d ∈ ds, d.wellFormed) :
+    ∀ (w w' : W E), w.modInput = w'.modInput → w.bufferFresh →
+      (W.deliverAll eng w ds).1.modInput = (runPieces eng w' (ds.map Delivery.text)).1.modInput ∧
+      (W.deliverAll eng w ds).2.1 = (runPieces eng w' (ds.map Delivery.text)).2.1 ∧
+      (W.deliverAll eng w ds).2.2 = (runPieces eng w' (ds.map Delivery.text)).2.2 := by
+  induction ds with
+  | nil => intro w w' h _; exact ⟨h, rfl, rfl⟩
+  | cons d ds ih =>
+    intro w w' h hb
+    obtain ⟨e1, e2, e3⟩ := deliver_eq_file eng w d (hwf d (by simp)) hb
+    have hc := run_congr eng w w' h (some d.text)
+    rw [hc] at e1 e2
+    obtain ⟨i1, i2, i3⟩ := ih (fun x hx => hwf x (by simp [hx])) (w.deliver eng d).1 (w'.run eng (.file (some d.text))).1 e1 e3
+    have ht : (w.deliver eng d).1.tables = (w'.run eng (.file (some d.text))).1.tables := by
+      have := congrArg W.tables e1
+      simpa [W.modInput] using this
+    simp only [W.deliverAll, List.map_cons, runPieces]
+    refine ⟨i1, ?_, ?_⟩
+    · rw [i2, e2, run_snd]
+    · rw [i3, ht]
+
+/-- **Split invariance, any entry point.** The pieces `ds` (all but the last ending at an END boundary) delivered one after the
+    other by RunString, RunFile or AccumulateLine…RunAccumulated, against one RunFile call on the whole text: if the one call
+    is error-free, every piece returns 0, the data rows agree (minus `sim`) and the final engine state is the same. -/
+theorem split_invariance_deliveries {E : Type} (eng : Engine E) (hfree : eng.CallLocalFree) (w : W E)
+    (hdb : w.dbLoaded = true) (hb : w.bufferFresh) (ds : List Delivery) (last : Delivery)
+    (hwf : ∀ d ∈ ds ++ [last], d.wellFormed) (hcut : ∀ d ∈ ds, endBoundary d.text = true)
+    (hrc : (w.run eng (.file (some ((ds.map Delivery.text).flatten ++ last.text)))).1.rc = 0) :
+    (∀ rc ∈ (W.deliverAll eng w (ds ++ [last])).2.1, rc = 0) ∧
+    (w.run eng (.file (some ((ds.map Delivery.text).flatten ++ last.text)))).1.tables.map Row.data =
+      (W.deliverAll eng w (ds ++ [last])).2.2.map Row.data ∧
+    (w.run eng (.file (some ((ds.map Delivery.text).flatten ++ last.text)))).1.engine =
+      (W.deliverAll eng w (ds ++ [last])).1.engine := by
+  obtain ⟨d1, d2, d3⟩ := deliverAll_eq_runPieces eng (ds ++ [last]) hwf w w rfl hb
+  have hmap : (ds ++ [last]).map Delivery.text = ds.map Delivery.text ++ [last.text] := by simp
+  rw [hmap] at d1 d2 d3
+  have hcut' : ∀ p ∈ ds.map Delivery.text, endBoundary p = true := by
+    intro p hp
+    obtain ⟨d, hd, rfl⟩ := List.mem_map.1 hp
+    exact hcut d hd
+  obtain ⟨s1, s2, s3⟩ := split_invariance_n eng hfree (ds.map Delivery.text) last.text hcut' w hdb hrc
+  refine ⟨?_, ?_, ?_⟩
+  · rw [d2]; exact s1
+  · rw [d3]; exact s2
+  · rw [s3]
+    have := congrArg W.engine d1
+    simpa [W.modInput] using this.symm
+
 /-! ## non-vacuity -/
 
 section Examples
@@ -263,6 +348,15 @@ example :
     (w.run toy .accumulated).1.getAccumulatedLines = bs "SOLUTION 1\nEND\n" ∧
     (((w.run toy .accumulated).1.accumulateLine (bs "END")).getAccumulatedLines = bs "END\n") ∧
     (((w.run toy .accumulated).1.run toy .accumulated).1.engine = [2, 2]) := by decide +kernel
+
+-- three pieces through the three entry points against one call
+example :
+    let ds : List Delivery := [.acc [bs "SOLUTION 1", bs " pH 7 # c;x\nEND"], .str textB]
+    let last : Delivery := .file (bs "END\n")
+    (∀ d ∈ ds, endBoundary d.text = true) ∧
+    (W.deliverAll toy w0 (ds ++ [last])).2.1 = [0, 0, 0] ∧
+    (W.deliverAll toy w0 (ds ++ [last])).1.engine = (w0.run toy (.file (some (textA ++ textB ++ bs "END\n")))).1.engine ∧
+    (W.deliverAll toy w0 (ds ++ [last])).1.engine = [3, 4, 1] := by decide +kernel
 
 -- without a database every entry point returns 1 and leaves the engine alone
 example : ((({ engine := [] } : W (List Nat)).run toy (.str textA)).2 = 1) := by decide +kernel
